@@ -243,7 +243,7 @@ def check_cross_frame(tier):
     """a key gets the same partition number in every frame shuffled to the same count, also int vs float keys"""
     prun.init()
     from symdf.interp import run_graph
-    from symdf.core import And, Not
+    from symdf.core import And, Not, I
     from dask_expr._expr import optimize
     import dask_expr as dx
     from dask import delayed
@@ -327,4 +327,50 @@ def check_cross_frame(tier):
                                   {"engine": "P", "kind": "cross-frame-multi"}, dt, 1))
         else:
             results.append(Result(name, INCONCLUSIVE, "", "z3 unknown", None, dt, 1))
+    # a key that is the (named) index in one frame and a column in the other: the same key tuple, in the same order, must be hashed
+    for n_out in (2, 3) if tier == "quick" else (2, 3, 5, 7):
+        for keys in (["a"], ["a", "b"], ["b", "a"]):
+            name = f"cross-frame(n_out={n_out}, key={keys}, 'a' is the index of one frame)"
+            prog = prun.Program("x", [prun.Src("L", 2, {"b": "i", "v": "i"}, 2, how="delayed", cuts=(0, 1, 2), divisions=(0, 10, 20), index_name="a"),
+                                      prun.Src("R", 2, {"w": "i", "b": "i", "a": "i"}, 2, how="delayed", cuts=(0, 1, 2))])
+            env, frames = prun.make_env(prog)
+            assign = {}
+            try:
+                for nm in ("L", "R"):
+                    pdf = frames[nm]
+                    divs = (0, 10, 20) if nm == "L" else None
+                    df = dx.from_delayed([delayed(pdf.iloc[i:i + 1]) for i in range(len(pdf))], meta=pdf.iloc[:0], divisions=divs, verify_meta=False)
+                    plan = optimize(df.shuffle(keys if len(keys) > 1 else keys[0], npartitions=n_out).expr, fuse=False)
+                    parts, it = run_graph(plan, env)
+                    assign.update(_assignment(plan, it))
+                L, R = env.convert(frames["L"]), env.convert(frames["R"])
+                conds = []
+                for i in range(2):
+                    for j in range(2):
+                        same = [I(L.index_.vals[i]) == R.col("a").cell(j).num()]
+                        if "b" in keys:
+                            same.append(L.col("b").cell(i).num() == R.col("b").cell(j).num())
+                        conds.append(z3.Implies(And(*same), assign[("L", i)] == assign[("R", j)]))
+                r, model, dt = prun.solve(env.constraints, z3.Not(z3.And(*conds)))
+            except Exception as e:
+                results.append(Result(name, SKIPPED, "", f"{type(e).__name__}: {e}", extra={"unsupported": str(e)}))
+                continue
+            if r == "unsat":
+                results.append(Result(name, HELD, "", "unsat: an index key and a column key with equal values get the same partition number", None, dt, 1))
+            elif r == "sat":
+                import pandas as pd
+
+                ks = [(a, b) for a in range(5) for b in range(4)]
+                l = pd.DataFrame({"b": [k[1] for k in ks], "v": 0}, index=pd.Index([k[0] for k in ks], name="a"))
+                rr = pd.DataFrame({"w": 0, "b": [k[1] for k in ks], "a": [k[0] for k in ks]})
+                key = keys if len(keys) > 1 else keys[0]
+                pl = prun.concrete_parts(optimize(dx.from_pandas(l, npartitions=2, sort=False).shuffle(key, npartitions=n_out).expr))
+                pr = prun.concrete_parts(optimize(dx.from_pandas(rr, npartitions=2).shuffle(key, npartitions=n_out).expr))
+                wl = lambda parts, k: [j for j, g in enumerate(parts) if ((g.index == k[0]) & ((g.b == k[1]) | ("b" not in keys))).any()]
+                wr = lambda parts, k: [j for j, g in enumerate(parts) if ((g.a == k[0]) & ((g.b == k[1]) | ("b" not in keys))).any()]
+                bad = [k for k in ks if wl(pl, k) != wr(pr, k)]
+                results.append(Result(name, VIOLATION if bad else HARNESS_ERROR, name, f"equal keys land in different partitions of the two frames, e.g. {bad[:3]}" if bad else "model counterexample does not reproduce",
+                                      {"engine": "P", "kind": "cross-frame-index"}, dt, 1))
+            else:
+                results.append(Result(name, INCONCLUSIVE, "", "z3 unknown", None, dt, 1))
     return results
